@@ -29,7 +29,7 @@ CHECKS = {
             'section 5 C05', 'Coq theorems on a Gallina model + extracted-model differential run'),
     'C07': ('proof', 'Theorems C07_rodelete_marks, C07_terminal (all classes, any later history), C07_never_spurious (invariant over any '
             'history without roDelete) proved in Coq; the serialise / re-read / re-classify round trip is checked on the real code at '
-            'every step of random histories (and proved for the model codec in C14).',
+            'every step of random histories (and proved for the model codec in C14); collections with the roDelete at any rank among the message IDs, strict and non-strict, three constructors.',
             'section 5 C07', 'Coq theorems (induction over histories) + differential histories'),
     'C08': ('proof', 'Theorems C08_factor (classify = classify_spec o features), C08_noninterference, C08_total, C08_table proved in Coq. '
             'PARTIAL: malformed XML -> MosInvalidXML and file = str = bytes, default = -W error are runtime clauses checked by '
@@ -43,7 +43,7 @@ CHECKS = {
             '(ascending in the numeric ID). Correspondence: all permutations of order-sensitive message sets with mixed digit counts.',
             'section 5 C10', 'Coq theorems (sortedness + permutation uniqueness) + exhaustive permutations'),
     'C11': ('proof', 'Theorems C11_accept_iff and C11_selected proved in Coq for the model validation; exhaustive multisets run through the '
-            'real constructor under default flags and python -O.',
+            'real constructor under default flags and python -O (kinds interleaved in message-ID order, roCreate of every inner shape, padded / blank / missing roIDs); allow_incomplete given and left out through every construction route; documents supplied twice; completed roCreate documents.',
             'section 5 C11', 'Coq theorems + exhaustive small collections under two interpreter configurations'),
     'C12': ('proof', 'Theorems C12_classify, C12_merge (all 25 classes: outcome is success, MosMergeError or MosCompletedMergeError under '
             'schema_ok, timing_ok, for any document with a roCreate: C12_any_running_order; the model contains the built-in exception paths) and C12_nonstrict_terminates, proved in Coq. '
@@ -60,7 +60,7 @@ CHECKS = {
             'section 5 C03', 'Coq frame theorems on a Gallina model + extracted-model differential run on whole trees'),
     'C04': ('proof', 'Theorems C04_story_send_shape, C04_payload_present (carried elements spliced in as identical values, contiguous, '
             'in message order), C04_insert_dups_present, C04_roreplace, C04_metadata proved in Coq. Correspondence: random payloads '
-            'of depth <=4 [<=7] with attributes, mixed text/tails and markup-significant characters for the 13 payload-carrying classes.',
+            'of depth <=4 [<=7] with attributes, mixed text/tails, markup-significant characters, vendor XML in namespaces, comments / PIs, for the 13 payload-carrying classes; histories on one live object; the same messages read from files in four encodings and through collections built from strs.',
             'section 5 C04', 'Coq theorems on a Gallina model + extracted-model differential run'),
     'C06': ('proof', 'Theorems C06_raise_or_warn, C06_raise_or_warn_items (silent success implies every named story / item ID was found), C06_delete_warnings, '
             'C06_insert_warnings, C06_item_delete_warnings (exactly one warning per absent / duplicate element, the rest applied), '
@@ -87,7 +87,7 @@ CHECKS = {
     'C18': ('proof', 'Theorems C18_listing (every key with the suffix across any number of pages), C18_empty_page_hides_nothing, C18_reader '
             '(reader metadata and restore) proved in Coq. PARTIAL: the interchangeability of file / str / bytes / S3 object is '
             'translation validation by differential runs only (three encodings, fake S3 client and resource): file I/O, byte '
-            'decoding and boto3 are not modelled.',
+            'decoding and boto3 are not modelled (S3 keys with characters that decoding / normalising changes, decoys under every variant; the deferred boto3 handles through a stand-in); the three collection constructors over the same contents are compared directly.',
             'section 5 C18', 'Coq theorems on the listing / reader model + differential runs over sources and encodings'),
     'C19': ('proof', 'Theorems C19_detect_line, C19_detect_compositional (one bad file never hides the others, by construction of the output '
             'as a concatenation per file - for any list), C19_detect_status, C19_merge_output on the command functions. PARTIAL: '
